@@ -14,8 +14,8 @@
 use std::{any::TypeId, fmt::Debug, ops::Sub};
 
 use ndarray::{
-    Array, Array1, ArrayBase, ArrayView, ArrayViewMut, ArrayViewMut1, Axis, AxisDescription, Data,
-    DimAdd, Dimension, IntoDimension, Ix1, Ix2, OwnedRepr, RemoveAxis, Slice, Zip,
+    Array, Array1, ArrayBase, ArrayView, ArrayViewMut, ArrayViewMut1, Axis, Data, DimAdd,
+    Dimension, IntoDimension, Ix1, Ix2, OwnedRepr, RemoveAxis, Zip,
 };
 use num_traits::{cast, Num, NumCast};
 
@@ -258,20 +258,14 @@ where
             let y = *ys
                 .get(current_dim.clone())
                 .unwrap_or_else(|| unreachable!());
-            let subview =
-                buffer.slice_each_axis_mut(|AxisDescription { axis: Axis(nr), .. }| {
-                    match current_dim.as_array_view().get(nr) {
-                        Some(idx) => Slice::from(*idx..*idx + 1),
-                        None => Slice::from(..),
-                    }
-                });
-
-            let subview = match subview.into_shape_with_order(
-                self.data
-                    .raw_dim()
-                    .remove_axis(Axis(0))
-                    .remove_axis(Axis(0)),
-            ) {
+            // select the sub-view of this query index by indexing the leading axes away;
+            // unlike a reshape this works for every memory layout of the buffer
+            let mut subview = buffer.view_mut().into_dyn();
+            for &idx in current_dim.slice() {
+                subview = subview.index_axis_move(Axis(0), idx);
+            }
+            let subview = match subview.into_dimensionality::<<D::Smaller as Dimension>::Smaller>()
+            {
                 Ok(view) => view,
                 Err(err) => {
                     let expect = self.get_buffer_shape(xs.raw_dim()).into_pattern();
